@@ -46,6 +46,9 @@ NAME_COLS = [None]      # restrict the identifier pool to these columns (C05: no
 # begins with one of the marker's characters).  The choice is a function of the name, so emitting and expecting agree.
 OPENERS = [None]
 SQL_OPENERS = ["the {}", "Primary {} of the record", "Key {} of the table", "[{}] as bracketed", "Per-{} setting", "K"]
+# C01-C03, C08: plain descriptions that open differently, among them characters whose case-folded form is LONGER than the character
+# (sharp s, the fi ligature): text positions computed on a folded copy do not fit the original
+DOC_OPENERS = ["the {}", "the {} (Gr\u00f6\u00dfe)", "\ufb01ne-grained {}", "the {}"]
 ALLOW_KEYS = [set()]     # extra entry keys the comparison tolerates (C05: the synthetic id's server_default)
 
 
